@@ -169,6 +169,8 @@ pub enum Kind {
 pub struct RawHistory {
     pub mask: u16,
     pub palette: [u8; 3],
+    /// (N)RPN scanners: channels (bit set) that start with a complete number selection
+    pub preselect: u16,
     pub raw: Vec<RawOp>,
 }
 
@@ -252,9 +254,10 @@ pub fn history_strategy_w(max_len: usize, w: Weights) -> impl Strategy<Value = R
             1 => Just(u16::MAX),
         ],
         [0u8..32, 0u8..32, 0u8..32],
+        prop_oneof![2 => Just(0u16), 3 => any::<u16>(), 3 => Just(u16::MAX)],
         prop::collection::vec(raw_op_strategy(&w), 0..=max_len),
     )
-        .prop_map(|(mask, palette, raw)| RawHistory { mask, palette, raw })
+        .prop_map(|(mask, palette, preselect, raw)| RawHistory { mask, palette, preselect, raw })
 }
 
 pub fn subset_of(mask: u16) -> Vec<u8> {
@@ -270,7 +273,16 @@ fn pick(subset: &[u8], sel: u8) -> u8 {
 /// (below / at / above the timeout).
 pub fn concretize(kind: Kind, h: &RawHistory, timeout_ns: u64) -> Vec<Op> {
     let subset = subset_of(h.mask);
-    let mut out = Vec::with_capacity(h.raw.len());
+    let mut out = Vec::with_capacity(h.raw.len() + 4);
+    if kind != Kind::Cc14 {
+        for (i, &ch) in subset.iter().enumerate() {
+            if h.preselect & (1 << ch) != 0 {
+                let reg = (h.palette[0] as usize + i) % 2 == 0;
+                out.push(Op::cc(ch, if reg { 101 } else { 99 }, h.palette[1] * 4 + (i as u8 & 3)));
+                out.push(Op::cc(ch, if reg { 100 } else { 98 }, h.palette[2] * 4 + 1));
+            }
+        }
+    }
     for r in &h.raw {
         let op = match *r {
             RawOp::Contrib { sel, which, v, carrier } => {
@@ -286,7 +298,17 @@ pub fn concretize(kind: Kind, h: &RawHistory, timeout_ns: u64) -> Vec<Op> {
                             if w % 2 == 0 { base } else { base + 32 }
                         }
                     }
-                    _ => NRPN_CONTROLLERS[(which as usize * 8) >> 8],
+                    // value bytes dominate so that a selected number sees many data entries
+                    _ => match which {
+                        0..=89 => 6,
+                        90..=139 => 38,
+                        140..=152 => 96,
+                        153..=165 => 97,
+                        166..=188 => 98,
+                        189..=210 => 99,
+                        211..=233 => 100,
+                        _ => 101,
+                    },
                 };
                 Op::Feed { carrier, s: 0xB0 | ch, d1: cn, d2: v }
             }
